@@ -1029,6 +1029,11 @@ rrul_fill_yly(echs_instant_t *restrict tgt, size_t nti, rrulsp_t rr)
 		}
 	}
 
+	/* check ranges before filling, naught is for no default */
+	if (UNLIKELY(proto.m > 12U || proto.d > 31U)) {
+		goto fin;
+	}
+
 	/* check if we're ymd only */
 	ymdp = !bi63_has_bits_p(rr->wk) &&
 		!bi447_has_bits_p(&rr->dow) &&
